@@ -262,10 +262,11 @@ fn gen_msg(rng: &mut Rng, serial: bool, clean: bool, big_micros: bool, tier: u32
 
 fn gen_case(rng: &mut Rng, tier: u32) -> Case {
     let serial = rng.chance(3);
-    let clean = !rng.chance(3); // two thirds in the property's range, one third malformed
-    let big = !serial && rng.chance(10);
-    // maximum-size messages only in dedicated cases with short garbage (the list-based model is quadratic in garbage x size)
+    // maximum-size messages only in dedicated well-formed cases with short garbage (the list-based model
+    // re-measures the remaining input at every skipped byte: skipping through a corrupt 64 KiB message is quadratic)
     let huge = rng.chance(100);
+    let clean = huge || !rng.chance(3); // two thirds in the property's range, one third malformed
+    let big = !serial && rng.chance(10);
     let mut items = vec![];
     let nm = rng.below(5);
     for _ in 0..=nm {
